@@ -64,6 +64,7 @@ import (
 	"github.com/xuperchain/xupercore/kernel/contract/proposal/utils"
 	"github.com/xuperchain/xupercore/kernel/contract/sandbox"
 	"github.com/xuperchain/xupercore/kernel/ledger"
+	"xv/kvmem"
 	"xv/xvlib"
 )
 
@@ -111,6 +112,9 @@ var (
 )
 
 func acctName(i int) string {
+	if nodeMode {
+		return nodeAcct(i).Address
+	}
 	if i >= 50 {
 		return fmt.Sprintf("k%02d", i)
 	}
@@ -118,6 +122,12 @@ func acctName(i int) string {
 }
 
 func acctID(name string) int {
+	if nodeMode {
+		if i, ok := nodeIDs[name]; ok {
+			return i
+		}
+		return -1
+	}
 	if len(name) < 2 {
 		return -1
 	}
@@ -225,9 +235,32 @@ type world struct {
 	ntx   int
 	// one snapshot of the committed $tdpos bucket per sealed block (heights tdBaseTip+1, ...): "bucket/key" -> value
 	tdSnaps []map[string][]byte
+	// node cases (node.go): the contracts run on a real chainlib node, store / mgr are unused
+	node *nodeWorld
+	// dry: calls are pre-executions only, nothing is committed (conc.go); dryW collects the write sets
+	dry  bool
+	dryW *strings.Builder
 }
 
-func (w *world) tip() int { return tdBaseTip + len(w.tdSnaps) }
+func (w *world) tip() int {
+	if w.node != nil {
+		return tdBaseTip + w.node.packs
+	}
+	return tdBaseTip + len(w.tdSnaps)
+}
+
+// sel: all entries of a bucket in the live state
+func (w *world) sel(bucket string) ledger.XMIterator {
+	if w.node != nil {
+		it, err := w.node.n.S.CreateXMReader().Select(bucket, []byte{0}, []byte{0xff})
+		if err != nil {
+			xvlib.Die("select: %v", err)
+		}
+		return it
+	}
+	it, _ := w.store.Select(bucket, nil, nil)
+	return it
+}
 
 // tdBucket: the committed $tdpos bucket
 func (w *world) tdBucket() map[string][]byte {
@@ -277,7 +310,9 @@ func (w *world) invoke(contractName, method, initiator string, args map[string][
 }
 
 func (w *world) invokeAuth(contractName, method, initiator string, auth []string, args map[string][]byte) (resp *contract.Response, err error) {
-	curWorld = w
+	if !w.dry {
+		curWorld = w
+	}
 	defer func() {
 		if r := recover(); r != nil {
 			resp, err = nil, fmt.Errorf("panic: %v", r)
@@ -302,6 +337,12 @@ func (w *world) invokeAuth(contractName, method, initiator string, auth []string
 	resp, err = ctx.Invoke(method, args)
 	if err != nil {
 		return nil, err
+	}
+	if w.dry {
+		for _, wr := range state.RWSet().WSet {
+			fmt.Fprintf(w.dryW, "%s/%s=%s;", wr.Bucket, wr.Key, wr.Value)
+		}
+		return resp, nil
 	}
 	w.ntx++
 	txid := []byte(fmt.Sprintf("tx%08d", w.ntx))
@@ -380,7 +421,7 @@ func toI64(b *big.Int) int64 {
 
 func (w *world) snapshot() *snap {
 	s := &snap{bal: map[int]rec{}, props: map[int]prop{}, locks: map[[2]int]int64{}, noms: map[int]nomRec{}, tdVotes: map[[2]int]int64{}, tip: w.tip()}
-	it, _ := w.store.Select(utils.GetGovernTokenBucket(), nil, nil)
+	it := w.sel(utils.GetGovernTokenBucket())
 	for it.Next() {
 		k, v := string(it.Key()), it.Value().PureData.Value
 		switch {
@@ -414,7 +455,7 @@ func (w *world) snapshot() *snap {
 			s.junk = append(s.junk, "govkey:"+k)
 		}
 	}
-	it, _ = w.store.Select(utils.GetProposalBucket(), nil, nil)
+	it = w.sel(utils.GetProposalBucket())
 	for it.Next() {
 		k, v := string(it.Key()), it.Value().PureData.Value
 		switch {
@@ -439,14 +480,14 @@ func (w *world) snapshot() *snap {
 			s.props[pid] = prop{statusCode[p.Status], toI64(p.VoteAmount), acctID(p.Proposer)}
 		}
 	}
-	it, _ = w.store.Select(utils.GetTimerBucket(), nil, nil)
+	it = w.sel(utils.GetTimerBucket())
 	for it.Next() {
 		if string(it.Key()) != "id" {
 			s.tasks++
 		}
 	}
 	// the $tdpos bucket, decoded with encoding/json into plain maps (not the contract's own types)
-	it, _ = w.store.Select(utils.TDPOSKernelContract, nil, nil)
+	it = w.sel(utils.TDPOSKernelContract)
 	for it.Next() {
 		k, v := string(it.Key()), it.Value().PureData.Value
 		switch {
@@ -666,12 +707,8 @@ func (w *world) exec(line string) (string, opInfo) {
 		if f[5] != "1" {
 			method = "fail"
 		}
-		p := map[string]interface{}{
-			"args":    map[string]interface{}{"min_vote_percent": f[2], "stop_vote_height": f[3]},
-			"trigger": map[string]interface{}{"height": trig, "module": "xkernel", "contract": "$xvtarget", "method": method, "args": map[string]interface{}{}},
-		}
-		pb, _ := json.Marshal(p)
-		resp, err = w.invoke(utils.ProposalKernelContract, "Propose", acctName(info.acct), map[string][]byte{"proposal": pb})
+		_ = method
+		resp, err = w.invoke(utils.ProposalKernelContract, "Propose", acctName(info.acct), map[string][]byte{"proposal": proposalJSON(f[2], f[3], trig, f[5] == "1")})
 	case "vote":
 		info.acct, info.pid, info.amount = atoi(f[1]), atoi(f[2]), int64(atoi(f[3]))
 		resp, err = w.invoke(utils.ProposalKernelContract, "Vote", acctName(info.acct),
@@ -706,6 +743,19 @@ func (w *world) exec(line string) (string, opInfo) {
 		return "noop", info
 	}
 	return "ok", info
+}
+
+func proposalJSON(pct, stop string, trig int, ok bool) []byte {
+	method := "ok"
+	if !ok {
+		method = "fail"
+	}
+	p := map[string]interface{}{
+		"args":    map[string]interface{}{"min_vote_percent": pct, "stop_vote_height": stop},
+		"trigger": map[string]interface{}{"height": trig, "module": "xkernel", "contract": "$xvtarget", "method": method, "args": map[string]interface{}{}},
+	}
+	b, _ := json.Marshal(p)
+	return b
 }
 
 func parseReset(line string) ([]xledger.Predistribution, bool) {
@@ -1030,6 +1080,9 @@ type result struct {
 // runCase executes a whole case (first line `reset ...`) on a fresh world.
 func runCase(ops []string) result {
 	var res result
+	if f := strings.Fields(ops[0]); len(f) >= 2 && f[0] == "reset" && f[1] == "node" {
+		return runNodeCase(ops)
+	}
 	pre, ok := parseReset(ops[0])
 	if !ok || !strings.HasPrefix(ops[0], "reset") {
 		for range ops {
@@ -1046,6 +1099,16 @@ func runCase(ops []string) result {
 			res.answers = append(res.answers, "bad-op")
 			continue
 		}
+		if strings.Fields(l)[0] == "conc" {
+			ans, vs, ok := w.conc(l)
+			if !ok {
+				res.answers = append(res.answers, "bad-op")
+				continue
+			}
+			res.answers = append(res.answers, ans+" | "+prev.dump())
+			res.viols = append(res.viols, vs...)
+			continue
+		}
 		ans, info := w.exec(l)
 		if info.malformed {
 			res.answers = append(res.answers, "bad-op")
@@ -1055,6 +1118,64 @@ func runCase(ops []string) result {
 		res.answers = append(res.answers, ans+" | "+cur.dump())
 		res.viols = append(res.viols, oracle(info, l, prev, cur)...)
 		if info.ok && info.kind != "init" {
+			oks++
+		}
+		prev = cur
+	}
+	res.nontriv = oks > 0
+	return res
+}
+
+// runNodeCase: a case on a real node (node.go)
+func runNodeCase(ops []string) result {
+	var res result
+	nodeMode = true
+	defer func() { nodeMode = false }()
+	w, err := newNodeWorld(strings.Fields(ops[0])[2:])
+	if err != nil {
+		for range ops {
+			res.answers = append(res.answers, "bad-op")
+		}
+		return res
+	}
+	defer kvmem.Drop(w.node.n.Root)
+	res.answers = append(res.answers, "ok")
+	prev := w.snapshot()
+	oks := 0
+	for _, l := range ops[1:] {
+		if len(strings.Fields(l)) == 0 {
+			res.answers = append(res.answers, "bad-op")
+			continue
+		}
+		ans, info, stateOp, extra := w.execNode(l)
+		res.viols = append(res.viols, extra...)
+		if info.malformed {
+			res.answers = append(res.answers, "bad-op")
+			continue
+		}
+		if !stateOp {
+			res.answers = append(res.answers, ans)
+			continue
+		}
+		cur := w.snapshot()
+		res.answers = append(res.answers, ans+" | "+cur.dump())
+		first := strings.Fields(l)[0]
+		switch first {
+		case "pack":
+			if a, b := *prev, *cur; func() bool { a.tip, b.tip = 0, 0; return a.dump() != b.dump() }() {
+				res.viols = append(res.viols, viol{"pack-changed-state", "packing the pending transactions into a block changed the contract buckets (at `" + l + "`)"})
+			}
+		case "sub", "dotx":
+			if ans == "none" {
+				break
+			}
+			for _, v := range oracle(info, l, prev, cur) {
+				res.viols = append(res.viols, viol{v.key + ":sub", v.what})
+			}
+		default:
+			res.viols = append(res.viols, oracle(info, l, prev, cur)...)
+		}
+		if info.ok && info.kind != "init" && first != "pack" {
 			oks++
 		}
 		prev = cur
@@ -1590,6 +1711,33 @@ func main() {
 	}
 	enumerate(out, []string{resetBig, "init 0", "nominate 1 0 500 1 +", "tvote 0 0 600 +"}, tdposAlphabet(0), tdLife)
 	enumerate(out, []string{"reset 0:3000 1:1500 50:2500", "init 0", "nominate 50 1 400 1 +", "tvote 1 1 300 +", "tvote 50 1 300 +"}, tdposAlphabet(1), tdLife)
+	// 2c. node cases: transactions pre-executed on the same state and submitted / verified / admitted in every schedule
+	// of two submissions in flight, balance queries through the tip snapshot reader while transfers are pending
+	for _, c := range systematicNodeCases() {
+		doCase(out, c)
+		out.Count("node-case")
+	}
+	nNode, nConc, concReps, fixedReps := 150, 40, 300, 3000
+	if thorough {
+		nNode, nConc, concReps, fixedReps = 1500, 300, 500, 20000
+	}
+	nrng := xvlib.NewRng((args.Seed ^ 0x6e6f6465) * 0x9E3779B97F4A7C15)
+	for i := 0; i < nNode; i++ {
+		doCase(out, randomNodeCase(nrng))
+		out.Count("node-case")
+	}
+	// 2d. concurrent pre-executions against the sequential verdicts and write sets
+	for _, c := range fixedConcCases(fixedReps) {
+		doCase(out, c)
+		out.Count("conc-case")
+	}
+	for i := 0; i < nConc; i++ {
+		if c := concCase(nrng, 12, concReps); c != nil {
+			doCase(out, c)
+			out.Count("conc-case")
+		}
+	}
+	rules = append(rules, fmt.Sprintf("node cases on a real chainlib node (VerifyTx + DoTx, blocks): every role assignment over 4 accounts of {confirmed transfer a->b, pending transfer b->c, balance query of every account at the tip} and of two transfers to one (fresh) account pre-executed on the same state, first-ever proposals, votes on one proposal, in 5 verification / admission schedules; %d random node histories (pre / ver / sub / dotx / pack / qbal); %d concurrent pre-execution cases (12 goroutines) against the sequential verdicts and write sets", nNode, nConc+3))
 	// 3. random longer sequences (duplicated genesis entries, lower-case account, all callers)
 	// xvlib.NewRng(s) and NewRng(s+1) are the same splitmix stream one draw apart (and the generators re-synchronise on
 	// it): spread the seeds so that different VERIF_SEEDs give unrelated streams
